@@ -203,6 +203,15 @@ func ruleBuildPipeline(w *World, r *Report, rFill, rCycle, rLifetimes, rDeps, rS
 			r.Check(bad == "", rFill, con, fill.Pos(), true, "every registered descriptor is added to the dependency graph (only a nil element is skipped)", bad)
 		}
 	}
+	if ro.cycleHelper != nil {
+		for _, id := range []string{rCycle, rFill, rLifetimes, rDeps, rSingletons} {
+			if id != "" {
+				r.Undecided(id, fi.Name()+"#pipeline-split", fi.Decl.Pos(), "graph fill and cycle check live in %s, a helper of %s that is not of the plain shape the analysis inlines (one caller, one success return at the end, error propagated unchanged): the order of the build pipeline is not decided", ro.cycleHelper.Name(), fi.Name())
+				break
+			}
+		}
+		return
+	}
 	p := analysePipelineWith(w, fill)
 	if p.alloc == nil {
 		for _, id := range []string{rCycle, rFill, rLifetimes, rDeps, rSingletons} {
